@@ -328,16 +328,85 @@ def build_harness(crate, extra_env=None, features=None):
     return os.path.join(tgt, "release", name), out[-2000:]
 
 
+IDLE_TIMEOUT = int(os.environ.get("VERIF_IDLE_TIMEOUT", "60"))
+
+
+def _run_once(cmd, data, timeout, env, streams=False):
+    """run cmd on data; returns (lines, status) with status 'ok' | 'exit N' | 'timeout' | 'hang'.
+    A process that has started to stream answers and then produces nothing for IDLE_TIMEOUT
+    seconds is hanging on its next case: it is killed and the lines received so far are kept."""
+    import selectors
+    import threading
+    e = dict(os.environ)
+    e.update(env or {})
+    p = subprocess.Popen(cmd, stdin=subprocess.PIPE, stdout=subprocess.PIPE, stderr=subprocess.STDOUT, env=e)
+
+    def feed():
+        try:
+            p.stdin.write(data.encode())
+            p.stdin.close()
+        except Exception:
+            pass
+    threading.Thread(target=feed, daemon=True).start()
+    sel = selectors.DefaultSelector()
+    sel.register(p.stdout, selectors.EVENT_READ)
+    buf = b""
+    t0 = last = time.time()
+    status = "ok"
+    while True:
+        now = time.time()
+        if now - t0 > timeout:
+            status = "timeout"
+            break
+        if (streams or buf.count(b"\n") > 0) and now - last > IDLE_TIMEOUT:
+            status = "hang"
+            break
+        if sel.select(timeout=1.0):
+            chunk = os.read(p.stdout.fileno(), 1 << 16)
+            if not chunk:
+                break
+            buf += chunk
+            last = time.time()
+    if status != "ok":
+        p.kill()
+    rc = p.wait()
+    if status == "ok" and rc != 0:
+        status = "exit %d" % rc
+    text = buf.decode("utf-8", "replace")
+    lines = text.split("\n")
+    complete = lines[:-1] if not text.endswith("\n") else lines[:-1]
+    return [l for l in complete if l.strip() != ""], status
+
+
 def run_lines(cmd, cases, timeout=900, env=None):
-    """feed one case per line, get one observation per line (padded with '!missing')"""
-    data = "\n".join(sx(c) for c in cases) + "\n"
-    rc, out, dt = sh(cmd, timeout, stdin=data, env=env)
-    lines = [l for l in out.split("\n") if l.strip() != ""]
-    if rc != 0:
-        lines.append("!exit-status %d" % rc)
-    while len(lines) < len(cases):
-        lines.append("!missing")
-    return lines[: len(cases)], lines[len(cases):], dt
+    """feed one case per line, get one observation per line. A hanging case is reported as
+    '!hang …' and the cases after it are re-run in a fresh process (up to 3 restarts)."""
+    t0 = time.time()
+    out = []
+    rest = list(cases)
+    extra = []
+    restarts = 0
+    while rest:
+        data = "\n".join(sx(c) for c in rest) + "\n"
+        lines, status = _run_once(cmd, data, timeout, env, streams=(restarts > 0 or len(out) > 0))
+        if status == "ok" or len(lines) >= len(rest):
+            out += lines[: len(rest)]
+            extra += lines[len(rest):]
+            rest = rest[len(lines):]
+            break
+        out += lines
+        k = len(lines)
+        if status in ("hang", "timeout"):
+            out.append("!hang no answer within %ds (%s)" % (IDLE_TIMEOUT if status == "hang" else timeout, status))
+        else:
+            out.append("!%s" % status.replace(" ", "-"))
+        rest = rest[k + 1:]
+        restarts += 1
+        if restarts > 2:
+            break
+    while len(out) < len(cases):
+        out.append("!missing")
+    return out[: len(cases)], extra, time.time() - t0
 
 
 def run_sharded(cmd, cases, shards=16, timeout=900, env=None):
